@@ -133,7 +133,6 @@ def step (e : Engine) (st : St) (line : String) : St × String :=
     | some ns => ({ st with objs := (ns.map (BitVec.ofNat 64)).toArray }, line.trimAscii.toString)
     | none => (st, "bad-op")
   | ["clear"] => ({ st with pool := #[] }, "ok")
-  | ["d9"] => (st, s!"d9Present={b01 d9Present}")
   | ["alleq"] =>
     match e with
     | .enum => (st, allEq enumEq st.pool)
